@@ -22,7 +22,7 @@ type c09Spec struct {
 	Seed      uint64      `json:"seed"`
 	Optimized bool        `json:"optimized"`
 	Damage    *lib.Damage `json:"damage,omitempty"`
-	Reuse     string      `json:"reuse"` // how the damaged file is reused by the patch (label)
+	Reuse     string      `json:"reuse"`   // how the damaged file is reused by the patch (label)
 	Aligned   bool        `json:"aligned"` // pair contains whole-file copies of block-aligned files
 }
 
@@ -216,12 +216,12 @@ func c09Run(c lib.Case, env *lib.Env) lib.Result {
 
 func init() {
 	lib.Register(&lib.Property{
-		ID:    "C09",
-		Level: "fault_enumeration",
-		Rule: "pairs in which the patch reuses old data in every way (block ranges in the middle of a large file >= 3 blocks before its end / bsdiff series in the optimized patch; whole-file copies of files of exactly 64 KiB, 128 KiB, unaligned sizes, < 1 block; an empty file; a file the patch does not reference); after diffing, the old tree gets one damage from the boundary list per case (bit flips at first/last byte of every block and in reused/unused blocks, truncation to {0,1,every block boundary ±1,size-1}, extension by {1,5,up to the boundary ±1,1 block,2 blocks}, fill of the empty file, deletion) or none; applied with patcher + fresh bowl whose target pool is pwr.NewSafeKeeper over the signature of the old build as written by wharf. Oracle: error OR output tree == new build; undamaged: no error AND equal. distinct = distinct (reuse kind, damage class, boundary class, optimized)",
+		ID:          "C09",
+		Level:       "fault_enumeration",
+		Rule:        "pairs in which the patch reuses old data in every way (block ranges in the middle of a large file >= 3 blocks before its end / bsdiff series in the optimized patch; whole-file copies of files of exactly 64 KiB, 128 KiB, unaligned sizes, < 1 block; an empty file; a file the patch does not reference); after diffing, the old tree gets one damage from the boundary list per case (bit flips at first/last byte of every block and in reused/unused blocks, truncation to {0,1,every block boundary ±1,size-1}, extension by {1,5,up to the boundary ±1,1 block,2 blocks}, fill of the empty file, deletion) or none; applied with patcher + fresh bowl whose target pool is pwr.NewSafeKeeper over the signature of the old build as written by wharf. Oracle: error OR output tree == new build; undamaged: no error AND equal. distinct = distinct (reuse kind, damage class, boundary class, optimized)",
 		Assumptions: []string{"the safekeeper is wired the way butler wires it: it is both the patcher's target pool and the fresh bowl's TargetPool"},
-		Cases: c09Cases,
-		Run:   c09Run,
-		Batch: 20,
+		Cases:       c09Cases,
+		Run:         c09Run,
+		Batch:       20,
 	})
 }
